@@ -171,6 +171,20 @@ def run_frontend(fe, tab, config_dict):
             ds = xr.Dataset({k: ("obs", a) for k, a in cols.items()} | {"time": ("obs", times)})
         else:
             ds = xr.Dataset({k: ("time", a) for k, a in cols.items()}, coords={"time": times})
+        if variant == "file":
+            # through a NetCDF-3 file on disk (scipy engine), times stored as seconds since the epoch
+            import os
+            import tempfile
+
+            fd, path = tempfile.mkstemp(suffix=".nc", prefix="verif_stream_", dir="/tmp")
+            os.close(fd)
+            try:
+                ds.to_netcdf(path, engine="scipy", encoding={"time": {"units": "seconds since 1970-01-01T00:00:00", "dtype": "float64"}})
+                if kind == "netcdf":
+                    return list(NetcdfStream(path).run(cfg))
+                return list(XarrayStream(path).run(cfg))
+            finally:
+                os.remove(path)
         if kind == "netcdf":
             return list(NetcdfStream(ds).run(cfg))
         return list(XarrayStream(ds).run(cfg))
